@@ -63,3 +63,19 @@ impl std::hash::BuildHasher for SeededState {
         h
     }
 }
+
+// ---- H5: loader batch size
+
+thread_local! {
+    static LOAD_BATCH: Cell<usize> = Cell::new(1000);
+}
+
+/// Number of block files `ConsensusThread::on_init` loads per pass on this thread (the normal
+/// build uses the literal 1000). A harness lowers it to reach the multi-pass path with few files.
+pub fn set_load_batch(n: usize) {
+    LOAD_BATCH.with(|b| b.set(n.max(1)));
+}
+
+pub fn load_batch() -> usize {
+    LOAD_BATCH.with(|b| b.get())
+}
